@@ -176,28 +176,68 @@ def leaves_quantity():
             Quantity(5 * u.second), x, sp.Derivative(f(x), x), u.hertz * u.second, u.joule / (u.newton * u.meter), u.degree]
 
 
+def _tree_ops(a, b):
+    """constructors applied to operands a, b (most stay unevaluated when an operand is a quantity / symbol).
+    Number-only operands are always combined by SymPy's evaluating constructors: an unevaluated node over plain numbers
+    (Add(2, 2, oo, evaluate=False)) is not an input the library is ever given."""
+    ev = bool(getattr(a, "is_number", False) and getattr(b, "is_number", False))
+    # an explicit infinite / NaN literal inside an UNEVALUATED sum next to quantities (Add(oo, 3*s, 3*s, evaluate=False)) is not
+    # generated: is_number() classifies such a node through complex(), which succeeds only because of the infinity -- observed
+    # (DESIGN.md 10.3, "observed, outside the properties as stated"), not an input the library is given
+    nonfinite = lambda v: getattr(v, "is_number", False) and (v.has(oo) or v.has(-oo) or v.has(nan) or v.has(sp.zoo))
+    if not ev and (nonfinite(a) or nonfinite(b)):
+        ev = True
+    return _tree_ops_(a, b, ev)
+
+
+def _tree_ops_(a, b, ev):
+    return (lambda: sp.Add(a, b), lambda: sp.Mul(a, b), lambda: sp.Pow(a, b), lambda: sp.Min(a, b), lambda: sp.Max(a, b),
+            lambda: sp.Abs(a), lambda: sp.sin(a), lambda: sp.Add(a, b, -a), lambda: sp.Add(a, -a, b), lambda: sp.exp(a),
+            # functions of several arguments (a dimensional argument in a non-final position), and three-term sums / extrema
+            lambda: sp.atan2(a, b), lambda: sp.besselj(a, b), lambda: sp.Add(a, b, b, evaluate=ev), lambda: sp.Max(a, b, -b),
+            lambda: sp.Add(b, a, a, evaluate=ev), lambda: sp.log(a, b))
+
+
 def trees(leaves, depth, rng, budget):
-    """unevaluated-where-possible expression trees over the leaves, breadth first, at most `budget`"""
-    level = list(leaves)
-    yield from level
-    count = len(level)
-    for _ in range(depth):
-        new = []
-        pairs = list(itertools.product(level, leaves)) + list(itertools.product(leaves, level))
-        rng.shuffle(pairs)
-        for a, b in pairs:
-            for mk in (lambda: sp.Add(a, b), lambda: sp.Mul(a, b), lambda: sp.Pow(a, b), lambda: sp.Min(a, b), lambda: sp.Max(a, b),
-                       lambda: sp.Abs(a), lambda: sp.sin(a), lambda: sp.Add(a, b, -a), lambda: sp.Add(a, -a, b), lambda: sp.exp(a)):
-                try:
-                    t = mk()
-                except Exception:
-                    continue
-                new.append(t)
-                yield t
+    """Expression trees over the leaves, at most `budget`, in a deterministic (seeded) order that INTERLEAVES the depths: the leaves,
+    then alternately a depth-1 tree (operator over two leaves) and a depth-2 tree (operator over a depth-1 tree and a leaf, in
+    either position), so that nested shapes are reached within a small budget.  depth <= 2."""
+    leaves = list(leaves)
+    yield from leaves
+    count = len(leaves)
+    if count >= budget:
+        return
+    level1 = []
+    for a, b in itertools.product(leaves, leaves):
+        for k, mk in enumerate(_tree_ops(a, b)):
+            level1.append((a, b, k))
+    rng.shuffle(level1)
+    built1 = []
+
+    def build(a, b, k):
+        try:
+            return _tree_ops(a, b)[k]()
+        except Exception:
+            return None
+    i = 0
+    nops = len(_tree_ops(S.One, S.One))
+    while count < budget and i < len(level1):
+        t = build(*level1[i])
+        i += 1
+        if t is None:
+            continue
+        built1.append(t)
+        yield t
+        count += 1
+        if depth >= 2 and count < budget and built1:
+            inner = built1[rng.randrange(len(built1))]
+            leaf = leaves[rng.randrange(len(leaves))]
+            k = rng.randrange(nops)
+            a, b = (inner, leaf) if rng.random() < 0.5 else (leaf, inner)
+            t2 = build(a, b, k)
+            if t2 is not None:
+                yield t2
                 count += 1
-                if count >= budget:
-                    return
-        level = new
 
 
 def search_collect_quantity(seed=0, budget=6000, depth=2):
@@ -307,7 +347,10 @@ def gate_pool():
     x = sp.Symbol("x")
     args = [0, 0.0, 1, 2.5, -3, oo, nan, sp.Float(0.0), u.meter, u.centimeter, 5 * u.kilometer, u.second, u.radian, 2 * u.radian, u.meter * u.radian,
             Quantity(0), Quantity(0 * u.meter), Quantity(3 * u.meter / u.second), u.meter + u.second, u.meter - 100 * u.centimeter, x, x * u.meter,
-            u.length, u.time, angle, u.length * angle, sp.physics.units.Dimension(1), u.meter**2, sp.sqrt(u.meter), u.newton, u.kilogram * u.meter / u.second**2]
+            u.length, u.time, angle, u.length * angle, sp.physics.units.Dimension(1), u.meter**2, sp.sqrt(u.meter), u.newton, u.kilogram * u.meter / u.second**2,
+            # finite non-zero magnitudes outside the binary64 range: still NOT 0 / oo (the wildcard is decided on the exact value)
+            sp.Float("1e-330") * u.coulomb, sp.Rational(1, 10**400) * u.coulomb, sp.Float("1e310") * u.coulomb, 10**400 * u.coulomb,
+            sp.Float("1e-300") * u.yocto * u.coulomb if hasattr(u, "yocto") else sp.Float("1e-324") * u.coulomb, sp.Rational(1, 10**400), 10**400]
     exps = [u.length, u.time, angle, sp.physics.units.Dimension(1), u.length * angle, u.force, u.velocity, u.meter, u.second, u.radian, Quantity(1),
             Quantity(0), u.newton, u.area, u.length**sp.Rational(1, 2)]
     return args, exps
@@ -459,6 +502,13 @@ def decorator_scenarios():
     out.append(expect_refusal(lambda ran: mk(a_=u.length)(ran)([L, T, L], T), "a_[1]", "second element of a sequence wrong"))
     out.append(expect_refusal(lambda ran: mk(a_=u.length)(ran)([L, L, T], T), "a_[2]", "third element of a sequence wrong"))
     out.append(expect_ok(lambda ran: mk(a_=u.length)(ran)([L, L, L], T), "sequence all right"))
+    Z, D7 = Quantity(0 * u.meter), Quantity(7)
+    out.append(expect_refusal(lambda ran: mk(a_=u.length)(ran)([0, 100], T), "a_[1]", "bare zero (wildcard) before a bare non-zero number in a length-guarded sequence"))
+    out.append(expect_refusal(lambda ran: mk(a_=u.length)(ran)([Z, D7], T), "a_[1]", "zero quantity (wildcard) before a dimensionless quantity in a length-guarded sequence"))
+    out.append(expect_refusal(lambda ran: mk(a_=u.length)(ran)((0, 3.5, L), T), "a_[1]", "bare zero, then a bare non-zero number, then a length"))
+    out.append(expect_refusal(lambda ran: mk(a_=u.length)(ran)([L, Z, T], T), "a_[2]", "a wrong element after a right one and a zero"))
+    out.append(expect_refusal(lambda ran: mk(a_=u.length)(ran)([T, L], T), "a_[0]", "first element wrong, second right"))
+    out.append(expect_ok(lambda ran: mk(a_=u.length)(ran)([Z, L, 0], T), "zeros are compatible with any dimension inside a sequence"))
     out.append(expect_ok(lambda ran: mk(a_=(u.length, u.time))(ran)([L, T], T), "tuple units, element-wise"))
     out.append(expect_refusal(lambda ran: mk(a_=(u.length, u.time))(ran)([L, L], T), "a_[1]", "tuple units: second element against second unit"))
     out.append(expect_refusal(lambda ran: mk(a_=(u.time, u.length))(ran)([L, L], T), "a_[0]", "tuple units: first element against first unit"))
@@ -482,6 +532,8 @@ def decorator_scenarios():
             return f()
         return thunk
     out.append(expect_ok(mk_out(u.length, L), "output ok"))
+    out.append(expect_refusal(mk_out(u.length, [Quantity(0 * u.meter), Quantity(7)]), "return", "output sequence: zero quantity before a dimensionless quantity"))
+    out.append(expect_refusal(mk_out(u.length, [L, T]), "return", "output sequence: second element of wrong dimension"))
     out.append(expect_refusal(mk_out(u.time, L), "return", "output of wrong dimension"))
     out.append(expect_refusal(mk_out(u.length, [L, T]), "return", "second element of an output sequence wrong"))
 
@@ -567,7 +619,33 @@ def check_celsius(i):
         return f"from_kelvin(to_kelvin({t})) = {from_kelvin(to_kelvin(Celsius(t))).value}"
     if abs(from_kelvin_quantity(to_kelvin_quantity(Celsius(t))).value - t) > tol:
         return f"from_kelvin_quantity(to_kelvin_quantity({t})) = {from_kelvin_quantity(to_kelvin_quantity(Celsius(t))).value}"
+    # the kelvin quantity has the temperature dimension and the kelvin value; other prefixes of kelvin read the same temperature
+    u = _units()
+    from symplyphysics import Quantity
+    kq = to_kelvin_quantity(Celsius(t))
+    if dim_vec(kq.dimension) != {"temperature": 1} and not (abs(t + 273.15) < 1e-12):
+        return f"to_kelvin_quantity({t}) has dimension {kq.dimension}"
+    if abs(float(kq.scale_factor) - (t + 273.15)) > tol:
+        return f"to_kelvin_quantity({t}) has the SI value {kq.scale_factor}"
+    if abs(t + 273.15) > 1e-9 and abs(from_kelvin_quantity(Quantity((t + 273.15) * 1000 * u.milli * u.kelvin)).value - t) > tol * 10:
+        return f"from_kelvin_quantity({(t + 273.15) * 1000} mK) differs from {t}"
+    # conversion between inequivalent dimensions is refused: a quantity that is not a temperature is not read as kelvins
+    if i < len(NOT_A_TEMPERATURE()):
+        q = NOT_A_TEMPERATURE()[i]
+        try:
+            r = from_kelvin_quantity(q)
+        except Exception:
+            r = None
+        if r is not None:
+            return f"from_kelvin_quantity({q.scale_factor} [{q.dimension}]) returned Celsius({r.value}) for a quantity that is not a temperature"
     return None
+
+
+def NOT_A_TEMPERATURE():
+    u = _units()
+    from symplyphysics import Quantity
+    return [Quantity(300 * u.joule), Quantity(300 * u.meter), Quantity(300 * u.kelvin / u.second), Quantity(300), Quantity(300 * u.kelvin**2),
+            Quantity(5 * u.second), Quantity(300 * u.kelvin * u.meter)]
 
 
 def check_evaluate(i):
@@ -904,7 +982,10 @@ def approx_pool():
            Quantity(0), Quantity((1 + 2 * sp.I) * u.meter), Quantity((1 + 2.001 * sp.I) * u.meter), Quantity((1 + 2.1 * sp.I) * u.meter), 1000.5, Quantity(500 * u.centimeter),
            # pairs straddling the boundary rho*|smaller| < |difference| <= rho*|larger| (symmetry), and complex pairs whose parts differ in size
            Quantity(1000 * u.meter), Quantity(1001.0005 * u.meter), Quantity((1000 + 1 * sp.I) * u.meter), Quantity((1000 + 1.5 * sp.I) * u.meter),
-           Quantity((2 + 5000 * sp.I) * u.meter), Quantity((0.0005 + 5 * sp.I) * u.kilometer)]
+           Quantity((2 + 5000 * sp.I) * u.meter), Quantity((0.0005 + 5 * sp.I) * u.kilometer),
+           # magnitudes far below pytest.approx's own default absolute tolerance (1e-12): the verdict must not depend on it
+           Quantity(sp.Float("1.602e-19") * u.meter), Quantity(sp.Float("3.204e-19") * u.meter), Quantity(sp.Float("1.0000e-19") * u.meter),
+           Quantity(sp.Float("1.0011e-19") * u.meter), Quantity(sp.Float("5e-13") * u.meter), Quantity(sp.Float("-4e-13") * u.meter)]
     tols = [(None, None), (0, 1e-6), (0.01, None), (None, 1.0), (0.0, None), (None, 0.01)]
     dims = [None, u.length, u.time]
     return ops, tols, dims
@@ -960,6 +1041,11 @@ def search_approx(seed=0, budget=0, reduced=False):
     """reduced: default tolerances and the dimensions None / length only (quick-tier audit); otherwise the whole pool"""
     ops, tols, dims = approx_pool()
     n = 0
+    for i in range(len(approx_vector_scenarios())):
+        n += 1
+        why = check_approx_vectors(i)
+        if why:
+            return ("vectors", i), why, n
     for i in range(len(ops)):
         for j in range(len(ops)):
             for k in range(len(tols) if not reduced else 1):
@@ -971,7 +1057,51 @@ def search_approx(seed=0, budget=0, reduced=False):
     return None, None, n
 
 
+def approx_vector_scenarios():
+    """(label, lhs components, rhs components, tolerance kwargs, must pass?) for assert_equal_vectors: component by component,
+    EQUAL lengths"""
+    u = _units()
+    from symplyphysics import Quantity
+    m = lambda v: Quantity(v * u.meter)
+    s_ = lambda v: Quantity(v * u.second)
+    return [
+        ("equal vectors", [m(1), m(2)], [m(1), m(2)], {}, True),
+        ("within the relative tolerance", [m(1), m(2)], [m(1), m(2.0001)], {}, True),
+        ("second component outside the tolerance", [m(1), m(2)], [m(1), m(2.1)], {}, False),
+        ("first component outside the tolerance", [m(1.1), m(2)], [m(1), m(2)], {}, False),
+        ("a component of another dimension", [m(1), m(2)], [m(1), s_(2)], {}, False),
+        ("rhs longer by a zero component", [m(1), m(2)], [m(1), m(2), m(0)], {}, False),
+        ("lhs longer by a zero component", [m(1), m(2), m(0)], [m(1), m(2)], {}, False),
+        ("rhs longer by a component below the absolute tolerance", [m(1), m(2)], [m(1), m(2), m(1e-9)], {"absolute_tolerance": 1e-6}, False),
+        ("empty against one component", [], [m(0)], {}, False),
+        ("three equal components, other unit prefix", [m(1), m(2), m(3)], [Quantity(100 * u.centimeter), Quantity(0.002 * u.kilometer), m(3)], {}, True),
+    ]
+
+
+def check_approx_vectors(i):
+    from symplyphysics import QuantityVector
+    from symplyphysics.core.approx import assert_equal_vectors
+    label, l, r, kw, want = approx_vector_scenarios()[i]
+    try:
+        lv, rv = QuantityVector(l), QuantityVector(r)
+    except Exception:
+        return None
+    try:
+        assert_equal_vectors(lv, rv, **kw)
+        got = True
+    except Exception:
+        got = False
+    if got != want:
+        return f"assert_equal_vectors [{label}] {'passed' if got else 'raised'}; the contract says it must {'pass' if want else 'fail'}"
+    return None
+
+
 def replay_approx(key):
+    if key and key[0] == "vectors":
+        why = check_approx_vectors(key[1])
+        assert why is None, why
+        print("contract holds on this input")
+        return
     why = check_approx(*key)
     assert why is None, why
     print("contract holds on this input")
